@@ -202,6 +202,8 @@ var (
 	litSl1   = eLit{"[1]", func() interface{} { return []interface{}{int64(1)} }}
 	litSl89  = eLit{"[8, 9]", func() interface{} { return []interface{}{int64(8), int64(9)} }}
 	litSl7z  = eLit{"[7, \"z\"]", func() interface{} { return []interface{}{int64(7), "z"} }}
+	litRows  = eLit{"[[5], [6]]", func() interface{} { return []interface{}{[]interface{}{int64(5)}, []interface{}{int64(6)}} }}
+	litRowsZ = eLit{"[[5], [\"z\"]]", func() interface{} { return []interface{}{[]interface{}{int64(5)}, []interface{}{"z"}} }}
 	litSl56  = eLit{"[5, 6]", func() interface{} { return []interface{}{int64(5), int64(6)} }}
 	litSl777 = eLit{"[7, 7, 7]", func() interface{} { return []interface{}{int64(7), int64(7), int64(7)} }}
 	litSl0   = eLit{"[]", func() interface{} { return []interface{}{} }}
@@ -568,6 +570,13 @@ func buildAlphabet() []op {
 	add("call", false, sCall{"z", []stmt{sAddEq{z, litSl8}}, u})
 	add("call", false, sCall{"z", []stmt{sLet{idx(z, eLen{z}), litInt(8)}}, mem(st, "C")})
 	add("call", false, sCall{"z", []stmt{sLet{idx(z, eLen{z}), litInt(8)}}, idx(rows, litInt(0))})
+	// lists of lists appended to a window of rows that has spare capacity behind it
+	// (rows itself sees that capacity): fitting lists are stored in place, a list
+	// with an inconvertible inner element stores nothing
+	add("append/rows", false, sLet{x, eAdd{slc(rows, litInt(0), litInt(1)), litRows}})
+	add("append/rows", false, sLet{x, eAdd{slc(rows, litInt(0), litInt(0)), litRows}})
+	add("append/rows-fails", false, sLet{x, eAdd{slc(rows, litInt(0), litInt(1)), litRowsZ}})
+	add("append/rows-fails", false, sLet{x, eAdd{slc(rows, litInt(0), litInt(0)), litRowsZ}})
 	add("call", false, sCall{"z", []stmt{sLet{idx(z, eLen{z}), litInt(8)}}, x})
 
 	seen := map[string]bool{}
